@@ -12,6 +12,7 @@ from harness import collide as C
 from harness import protocol as P
 from harness import scenarios as S
 from harness import kernel as K
+from harness.world import HarnessError
 
 import crypto
 import ikesa
@@ -35,22 +36,31 @@ _real_gen_ike = ikesa.IkeSa.generate_ike_sa_key_material
 _real_gen_child = ikesa.IkeSa.generate_child_sa_key_material
 
 
-def _gen_ike(self, ike_proposal, nonce_i, nonce_r, spi_i, spi_r, shared_secret, old_sk_d=None):
-    h = _PRF_HASH.get(int(ike_proposal.get_transform(Transform.Type.PRF).id))
-    if h is not None:     # SKEYSEED per RFC 7296 2.14 / 2.18, computed here independently of crypto.Prf
-        if old_sk_d:
-            note('SKEYSEED', hmac.new(old_sk_d, shared_secret + nonce_i + nonce_r, h).digest())
-        else:
-            note('SKEYSEED', hmac.new(nonce_i + nonce_r, shared_secret, h).digest())
-    note('DH shared secret', shared_secret)
-    kr = _real_gen_ike(self, ike_proposal, nonce_i, nonce_r, spi_i, spi_r, shared_secret, old_sk_d)
+def _gen_ike(self, *args, **kwargs):
+    """wrapper around IkeSa.generate_ike_sa_key_material: notes the inputs and results as secrets.  The arguments are
+    picked up by name, so that added / reordered parameters do not break the harness."""
+    import inspect
+    ba = inspect.signature(_real_gen_ike).bind(self, *args, **kwargs)
+    ba.apply_defaults()
+    a = ba.arguments
+    ni, nr, g = a.get('nonce_i'), a.get('nonce_r'), a.get('shared_secret')
+    old = a.get('old_sk_d')
+    if ni and nr and g:
+        # SKEYSEED per RFC 7296 2.14 / 2.18 computed here with hmac/hashlib for every PRF the daemon supports (whichever
+        # one is in use, its value is in this set; the others never occur anywhere)
+        for h in _PRF_HASH.values():
+            note('SKEYSEED', hmac.new(ni + nr, g, h).digest())
+            if old:
+                note('SKEYSEED', hmac.new(old, g + ni + nr, h).digest())
+        note('DH shared secret', g)
+    kr = _real_gen_ike(self, *args, **kwargs)
     for n, v in zip(kr._fields, kr):
         note('IKE ' + n, v)
     return kr
 
 
-def _gen_child(self, child_proposal, keyseed, sk_d):
-    kr = _real_gen_child(self, child_proposal, keyseed, sk_d)
+def _gen_child(self, *args, **kwargs):
+    kr = _real_gen_child(self, *args, **kwargs)
     for n, v in zip(kr._fields, kr):
         if v:
             note('CHILD ' + n, v)
@@ -243,6 +253,8 @@ def main():
     if ck.args.replay:
         replay(ck.args.replay)
     found, missing = nonvacuity()
+    if not found:
+        raise HarnessError('the verbose reference run logged no secret at all: the harness is broken')
     if missing:
         ck.violation('nonvacuity:scanner-misses:%s' % ','.join(missing),
                      'the scanner does not find %s in the DEBUG records of a verbose run (the check would be vacuous '
